@@ -369,6 +369,9 @@ func c18Property(t *rapid.T) {
 			}
 			i := rapid.IntRange(0, len(writers)-1).Draw(t, "w")
 			m, o := wmodels[i], writers[i].Options
+			if m.nilOpts || o == nil || o.RenderOptions == nil || o.StoreOptions == nil {
+				t.Skip("instance built with nil-valued options: its option groups are not assumed")
+			}
 			switch rapid.SampledFrom([]string{"format", "indent", "noclobber", "formatOptions"}).Draw(t, "what") {
 			case "format":
 				m.format = rapid.SampledFrom([]formats.Format{"", fakeFormat, formats.CDX14JSON}).Draw(t, "format")
@@ -420,7 +423,7 @@ func c18Property(t *rapid.T) {
 				if err != nil || fs.calls != calls+1 {
 					t.Fatalf("writer %d is configured for the fake format but the fake driver was not used (err=%v)%s", i, err, history())
 				}
-				if fs.renderOpts == nil || fs.renderOpts.Indent != m.indent {
+				if !m.nilOpts && (fs.renderOpts == nil || fs.renderOpts.Indent != m.indent) {
 					t.Fatalf("writer %d: the driver received render options %+v, the writer's own say indent %d%s", i, fs.renderOpts, m.indent, history())
 				}
 				if fs.formatOptsS != m.fo[fakeSerKey] || fs.formatOptsR != m.fo[fakeSerKey] {
@@ -588,7 +591,7 @@ func c18Property(t *rapid.T) {
 			// only writers with a recording backend (the filesystem backend would write to the working directory)
 			var cands []int
 			for i, m := range wmodels {
-				if m.store != nil {
+				if m.store != nil && !m.nilOpts {
 					cands = append(cands, i)
 				}
 			}
@@ -640,7 +643,7 @@ func c18Property(t *rapid.T) {
 		"retrieve": func(t *rapid.T) {
 			var cands []int
 			for i, m := range rmodels {
-				if m.store != nil {
+				if m.store != nil && !m.nilOpts {
 					cands = append(cands, i)
 				}
 			}
